@@ -65,6 +65,7 @@ namespace PySMT.Portfolio
 inductive Exn
   | solverError          -- any exception other than "unknown"
   | unknown              -- SolverReturnedUnknownResultError
+  | invalid              -- UnknownSolverAnswerError: solve() returned something that is not a bool (F25c repair)
   deriving DecidableEq, Repr, Hashable
 
 /-- what a member's `solve()` call ends with -/
